@@ -14,7 +14,7 @@ const FILE_NAMES: &[&str] = &["in.bob", "diagram.txt", "a b.bob", "ünï.bob", "
 const OUT_NAMES: &[&str] = &["out.svg", "o u t.svg", "result", "ünï.svg", "x.svg.tmp"];
 const STEMS: &[&str] = &["a", "b", "diagram", "x.y", "ünï", "with space", "UPPER", "z9", "long_name-1"];
 const EXTS: &[&str] = &["bob", "bob", "bob", "bob", "txt", "BOB", "svg", "md"];
-const DIRS: &[&str] = &["src", "in dir", "ünï", "d1/d2"];
+const DIRS: &[&str] = &["src", "in dir", "ünï", "d1/d2", "my.dir", "v1.2/docs"];
 
 fn invalid_utf8(rng: &mut Rng, base: &str) -> Vec<u8> {
     let mut b = base.as_bytes().to_vec();
@@ -79,6 +79,14 @@ pub fn gen_convert(rng: &mut Rng, pool: &Pool, mask: GenMask) -> RunSpec {
         text = rng.pick(gen::HOSTILE).to_string();
     }
     text = text.replace('\0', "");
+    if rng.chance(1, 25) {
+        // sit exactly on (or next to) a buffer boundary
+        let base = *rng.pick(&[8192usize, 16384, 32768, 65536]);
+        let size = (base as i64 + *rng.pick(&[-1i64, 0, 1])) as usize;
+        if text.len() < size {
+            text = gen::pad_to(&text, size);
+        }
+    }
     let mut dirs: Vec<String> = vec![];
     let mut files: Vec<(String, Vec<u8>)> = vec![];
     let mut stdin = None;
@@ -109,6 +117,10 @@ pub fn gen_convert(rng: &mut Rng, pool: &Pool, mask: GenMask) -> RunSpec {
             InputSel::Inline(arg)
         }
     };
+    // something waiting on standard input although the input comes from elsewhere: must be ignored
+    if !matches!(input, InputSel::Stdin) && rng.chance(1, 3) {
+        stdin = Some(b"+-----+\n| not |\n| me  |\n+-----+\n".to_vec());
+    }
     // options
     let mut names: Vec<&str> = STR_OPTS.iter().copied().chain(["font-size", "stroke-width", "scale"]).collect();
     rng.shuffle(&mut names);
@@ -135,8 +147,14 @@ pub fn gen_convert(rng: &mut Rng, pool: &Pool, mask: GenMask) -> RunSpec {
         out = Some(match rng.below(20) {
             0..=8 => name,
             9..=12 => {
-                let stale = if rng.chance(1, 2) {
+                let stale = if rng.chance(1, 3) {
                     b"<svg>stale previous output that is longer than nothing</svg>\n".to_vec()
+                } else if rng.chance(1, 2) {
+                    // much larger than any new document: a missing truncate leaves a stale tail
+                    let mut v = b"<svg>".to_vec();
+                    v.extend(std::iter::repeat(b'x').take(300_000));
+                    v.extend_from_slice(b"</svg>\n");
+                    v
                 } else {
                     let (t, _) = gen::gen_input(rng, pool, mask);
                     t.into_bytes()
@@ -160,6 +178,28 @@ pub fn gen_convert(rng: &mut Rng, pool: &Pool, mask: GenMask) -> RunSpec {
             _ => format!("./{}", name),
         });
     }
+    // usage errors: must end non-zero with a diagnostic and deliver nothing
+    let mut extra_args = vec![];
+    if rng.chance(1, 40) {
+        match rng.below(3) {
+            0 if !opts.is_empty() => {
+                let mut dup = rng.pick(&opts).clone();
+                dup.eq_syntax = false;
+                if dup.value.starts_with('-') {
+                    dup.eq_syntax = true;
+                }
+                opts.push(dup);
+            }
+            1 => extra_args.push(rng.pick(&["--bogus", "--scale-all", "-x", "--outputs=x"]).to_string()),
+            _ => {
+                if !matches!(input, InputSel::Stdin) {
+                    extra_args.push("surplus.bob".to_string());
+                } else {
+                    extra_args.push("--bogus".to_string());
+                }
+            }
+        }
+    }
     let n_groups = opts.len() + out.is_some() as usize;
     RunSpec {
         mode: Mode::Convert(Convert {
@@ -168,6 +208,7 @@ pub fn gen_convert(rng: &mut Rng, pool: &Pool, mask: GenMask) -> RunSpec {
             out,
             out_long: rng.chance(1, 3),
             positional_at: rng.usize_below(n_groups + 1),
+            extra_args,
         }),
         dirs,
         files,
@@ -186,10 +227,11 @@ pub fn gen_build(rng: &mut Rng, pool: &Pool, mask: GenMask) -> RunSpec {
         dirs.push(dir.clone());
     }
     let prefix = if dir.is_empty() { String::new() } else { format!("{}/", dir) };
-    let n = rng.usize_below(7);
+    let many = rng.chance(1, 15);
+    let n = if many { rng.urange(20, 45) } else { rng.usize_below(7) };
     let mut used = std::collections::BTreeSet::new();
-    for _ in 0..n {
-        let name = format!("{}.{}", rng.pick(STEMS), rng.pick(EXTS));
+    for k in 0..n {
+        let name = if many { format!("f{:02}.{}", k, rng.pick(EXTS)) } else { format!("{}.{}", rng.pick(STEMS), rng.pick(EXTS)) };
         if !used.insert(name.clone()) {
             continue;
         }
@@ -235,7 +277,8 @@ pub fn gen_build(rng: &mut Rng, pool: &Pool, mask: GenMask) -> RunSpec {
             dirs.push("out".into());
             Some("out".to_string())
         }
-        12..=15 => Some("newout".to_string()),
+        12..=14 => Some("newout".to_string()),
+        15 => Some("newout/".to_string()),
         16..=17 => Some("new/nested/out".to_string()),
         18 => {
             files.push(("blocked".into(), b"a file where the output directory should go\n".to_vec()));
@@ -257,7 +300,8 @@ pub fn gen_build(rng: &mut Rng, pool: &Pool, mask: GenMask) -> RunSpec {
             _ => String::new(),
         };
         if outdir.as_deref() == Some("out") || outdir.is_none() {
-            files.push((format!("{}{}.svg", od, rng.pick(STEMS)), b"<svg>stale</svg>".to_vec()));
+            let stale = if rng.chance(1, 2) { b"<svg>stale</svg>".to_vec() } else { vec![b'y'; 200_000] };
+            files.push((format!("{}{}.svg", od, rng.pick(STEMS)), stale));
         }
     }
     RunSpec { mode: Mode::Build(Build { pattern, outdir }), dirs, files, stdin: None, faults: vec![], rand_seed: rng.next_u64() | 1 }
